@@ -314,10 +314,10 @@ def worker(ctx, job):
 def run(ctx):
     parts = ctx.pick(8, 16)
     jobs = [{"kind": "grid", "part": p, "parts": parts} for p in range(parts)]
-    n = ctx.pick(6000, 200000)
+    n = ctx.pick(6000, 800000)
     per = ctx.pick(750, 5000)
     jobs += [{"kind": "random", "count": per} for _ in range(n // per)]
-    ctx.shard(jobs, timeout=ctx.pick(90, 340))
+    ctx.shard(jobs, timeout=ctx.pick(90, 1500))
     ctx.exhaustive = True
     ctx.extra["exhaustive_scope"] = "the parameter / two-step input grid named in the rule"
     ctx.extra.setdefault("exceptions", {})
